@@ -215,13 +215,43 @@ def run(ctx, rep):
                       'updated and re-keyed in %s' % keyset if ok and rem and ins else 'the record keeps its old value (updated: %s, removed from %s: %s, re-inserted: %s): the same difference is reported by every later scan' % (ok, keyset, bool(rem), bool(ins)),
                       function='scan_file', construct='%s converges' % member)
 
+    need_write_rule(P, rep, 'R-C11-3w')
+    from .C19 import inode_trust_rule
+    inode_trust_rule(P, rep, 'R-C11-5')
+    invalid_walk_rule(P, rep, 'R-C11-7')
+    from .C18 import nofollow_probe_rule
+    nofollow_probe_rule(P, rep, 'R-C11-6', ('dstat',), 'the scan of a data disk')
+
+
+def need_write_rule(P, rep, rid):
     # every primitive that changes the recorded set of entities marks the scan as modified, whatever the entity looks like
-    rep.rule('R-C11-3w', 'scan primitives that insert or remove a recorded entity (file, link, empty directory) set need_write on every path to their return', 6)
+    rep.rule(rid, 'scan primitives that insert or remove a recorded entity (file, link, empty directory) set need_write on every path to their return', 6)
     for fn in ('scan_file_allocate', 'scan_file_deallocate', 'scan_link_insert', 'scan_link_remove', 'scan_emptydir_insert', 'scan_emptydir_remove'):
         g_ = P.fn(fn)
         rep.analysed(g_)
         nws = [i for i in g_.all_insts() if i.op == 'store' and g_.expr(i.ops[1]).endswith('->need_write') and g_.const_of(i.ops[0]) == 1]
         esc = g_.reach([g_.entry()], stop={x.id for x in nws}, include_start=True)
         missed = [r_ for r_ in g_.returns() if r_.id in esc]
-        rep.check(bool(nws) and not missed, 'R-C11-3w', '%s always sets need_write' % fn, g_.file, '%d stores' % len(nws) if nws and not missed else 'a path reaches the return without scan->need_write = 1 (e.g. an entity without blocks): sync then ends with "Nothing to do" and never saves it',
+        rep.check(bool(nws) and not missed, rid, '%s always sets need_write' % fn, g_.file, '%d stores' % len(nws) if nws and not missed else 'a path reaches the return without scan->need_write = 1 (e.g. an entity without blocks): sync then ends with "Nothing to do" and never saves it',
                   function=fn, construct='need_write on every path')
+
+
+def invalid_walk_rule(P, rep, rid):
+    """diff reports "an interrupted sync is pending" by walking every stripe; the walk must cover the whole allocated parity
+    (parity_allocated_size), not only the part that already has valid parity (parity_used_size): stripes being synced for the first
+    time lie exactly behind the used size"""
+    rep.rule(rid, 'parity_is_invalid walks 0 .. parity_allocated_size(): its loop bound does not derive from parity_used_size()', 1)
+    f = P.fn('parity_is_invalid')
+    rep.analysed(f)
+    src = set()
+    for h in f.loops:
+        for b in [h] + [x for x in f.loops[h] if f.term(x).op == 'br' and len(f.term(x).ops) == 3 and any(s not in f.loops[h] and s != h for s in f.term(x).succ)]:
+            t = f.term(b)
+            if t.op == 'br' and len(t.ops) == 3:
+                src |= {x for x in f.value_sources(t.ops[0]) if x[0] == 'call'}
+    sizes = {x[1] for x in src if x[1].startswith('parity_') and x[1].endswith('_size')}
+    if not sizes:
+        raise AnalysisBroken('parity_is_invalid: stripe loop bound not recognised (sources %s)' % sorted(src))
+    rep.check(sizes == {'parity_allocated_size'}, rid, 'parity_is_invalid: bound of the stripe walk', f.file,
+              'bound from %s' % sorted(sizes) if sizes == {'parity_allocated_size'} else 'the walk is bounded by %s: stripes behind the used parity (files added by an interrupted first sync) are never looked at and diff reports the array as fully synced' % sorted(sizes),
+              function='parity_is_invalid', construct='loop bound')
